@@ -36,7 +36,7 @@ func init() {
 
 func runC20(c *mon.Ctx) {
 	runC20Long(c)
-	n := c.Pick(300, 2000)
+	n := c.Pick(300, 30000)
 	for i := int64(0); i < n; i++ {
 		if !c.Mine("streams", i) {
 			continue
@@ -101,7 +101,7 @@ func runC20(c *mon.Ctx) {
 
 // longStreams: enough packets per PID (≥ 16, so that continuity counters wrap) for residue that only shows when the counters line up.
 func runC20Long(c *mon.Ctx) {
-	n := c.Pick(30, 400)
+	n := c.Pick(30, 3000)
 	for i := int64(0); i < n; i++ {
 		if !c.Mine("long", i) {
 			continue
